@@ -91,3 +91,12 @@ func VerifFileKeyForItem(relPath, id string) uint64 {
 	return fileKeyForItem(manifestItem(relPath, id))
 }
 func VerifCRC32C(b []byte) uint32 { return crc32.Checksum(b, crc32cTable) }
+
+// scripted receiver of the resume negotiation (harness mode "plan")
+func VerifReadControlHeader(s Stream) (manifest.Manifest, error) { return readControlHeader(s) }
+func VerifHashFileChunk(path string, idx uint32, chunk uint32, size int64, alg byte) (uint64, error) {
+	return hashFileChunk(path, idx, chunk, size, alg)
+}
+func VerifParseHashAlg(s string) (byte, error) { return parseHashAlg(s) }
+
+const VerifResumeHashUnknown = resumeHashUnknown
